@@ -197,7 +197,7 @@ def gen_tables():
     out += "/-- `QUOTE_TAB` 8-byte rows, flattened (row b = bytes 8b..8b+7) -/\n"
     out += "def quoteTabBytes : Array UInt8 := " + lean_list([x for _, bs in quote for x in bs]) + "\n\n"
     out += "/-- `DIGIT_TO_VAL32` (src/util/unicode.rs) -/\n"
-    out += "def digitToVal32 : Array UInt32 := " + lean_list(d2v, per=10) + "\n\n"
+    out += "def digitToVal32 : Array Nat := " + lean_list(d2v, per=10) + "\n\n"
     out += f"def hexOff0 : Nat := {offs[0]}\ndef hexOff1 : Nat := {offs[1]}\ndef hexOff2 : Nat := {offs[2]}\n\n"
     out += "end Sonic.Gen\n"
     write("Tables.lean", out)
